@@ -207,7 +207,18 @@ fn main() {
                 }
                 n += 1;
             }
-            for l in lines {
+            let mut extra: Vec<String> = Vec::new();
+            // Number::from on the structured boundary set (pseudo-evaluator "numberfrom": bits in the input field)
+            {
+                let prop = props::by_id("C18").unwrap();
+                let count = prop.subs(Tier::Quick).iter().find(|s| s.name == "boundary").map(|s| if let run::SubKind::Enum { count } = s.kind { count } else { 0 }).unwrap_or(0);
+                for i in 0..count {
+                    if let Some(c) = prop.gen_enum("boundary", i, Tier::Quick) {
+                        extra.push(format!("numberfrom\tnumi:0\t{}", serde_json::to_string(&c.input).unwrap()));
+                    }
+                }
+            }
+            for l in lines.iter().chain(extra.iter()) {
                 println!("{}", l);
             }
         }
